@@ -56,8 +56,6 @@ Definition key_full (k : key) : bool :=
 Definition no_bare (rs : list restriction) : bool :=
   forallb (fun r => match r with RBare _ => false | _ => true end) rs.
 
+(* ReadUsersetTuples: Object is "type:id" (or "type:"), restrictions as above *)
 Definition wf_usersets_filter (f : usersets_filter) : bool :=
   wf_ofilter (uf_obj f) && no_bare (uf_restr f).
-
-(* ReadStartingWithUser: UserFilter is mandatory (at least one user) *)
-Definition wf_rswu_filter (f : rswu_filter) : bool := negb (null (sf_users f)).
